@@ -625,3 +625,87 @@ def ob_lineage_run(m: int, scoped: bool, v0: bool, v1: bool, v2: bool, retry_onc
                         res = [native(StepWorkerResult, result=EvA())]
                 runner.tick_buffer.append(mk_step_result(c.step_name, c.id, c.event, res))
     return failed_with is not None and entries == m and failed_with is excs[-1] and len(excs) == (m + 1) * (2 if retry_once else 1)
+
+
+# ---------------------------------------------------------------------------------------------------------------
+# a lineage that PARKS in wait_for_event: the invocation is ended (AddWaiter) and re-created when the wait ends
+from workflows.runtime.types.results import AddWaiter  # noqa: E402
+from workflows.runtime.types.ticks import TickWaiterTimeout  # noqa: E402
+
+
+class _WaitWF8(Workflow):
+    """same shape as _two_step_state(): s1 owned by h1 (budget 2), wildcard hw; only its step table is used (from_serialized)"""
+
+    @step
+    async def s1(self, ev: StartEvent | EvA) -> EvB:
+        return EvB()
+
+    @step
+    async def s2(self, ev: EvB) -> StopEvent:
+        return StopEvent()
+
+    @catch_error(for_steps=["s1"], max_recoveries=2)
+    async def h1(self, ev: StepFailedEvent) -> StopEvent:
+        return StopEvent()
+
+    @catch_error(max_recoveries=2)
+    async def hw(self, ev: StepFailedEvent) -> StopEvent:
+        return StopEvent()
+
+
+_WAITWF8 = [native(_WaitWF8, timeout=None)]
+
+
+@obligation(quick=120, thorough=300, partitions_quick=["how == 0", "how == 1"], partitions_thorough=[f"how == {h} and via == {v}" for h in (0, 1) for v in (0, 1)],
+            what="hop (wait_for_event): an invocation that carries recovery counts parks in a wait (AddWaiter ends it, the waiter record holds its "
+                 "event) and is re-created when the wait ends — by the awaited event (how 0) or by the wait's timeout (how 1), directly or after "
+                 "the state went through to_serialized / from_serialized (via 1: a resumed run): the re-created invocation carries the SAME "
+                 "recovery counts, so a handler whose budget on this lineage is spent is not entered again (the run fails with the original "
+                 "exception) and one with budget left is entered with count + 1",
+            bounds={"recovery_counts": "2 keys, presence symbolic, values 0..2 (owner h1: budget 2)", "wait ends by": "event / timeout",
+                    "between park and wake-up": "nothing / serialize + deserialize"})
+def ob_hop_wait_and_resume(p1: bool, n1: int, p2: bool, n2: int, how: int, via: int) -> bool:
+    """
+    pre: 0 <= n1 <= 2 and 0 <= n2 <= 2 and 0 <= how <= 1 and 0 <= via <= 1
+    post: _
+    """
+    how, via, n1, n2 = conc(how, 0, 1), conc(via, 0, 1), conc(n1, 0, 2), conc(n2, 0, 2)
+    p1, p2 = concb(p1), concb(p2)
+    rc = _rc(p1, n1, p2, n2)
+    with_native = native
+
+    def scenario() -> bool:
+        import json
+
+        from workflows.context.context_types import SerializedContext
+        from workflows.context.serializers import JsonSerializer
+
+        st = _two_step_state()                           # s1 owned by h1 (max_recoveries 2), wildcard hw
+        st.workers["s1"].in_progress = [in_progress("s1", EVA, 0, attempts=0, first_attempt_at=0, recovery_counts=dict(rc))]
+        park = AddWaiter(waiter_id="w", requirements={}, timeout=5.0, event_type=EvB)
+        st, _ = _reduce_tick(mk_step_result("s1", 0, EVA, [park]), st, 1, "r")
+        if st.workers["s1"].in_progress or len(st.workers["s1"].collected_waiters) != 1:
+            return False
+        if via == 1:
+            ser = JsonSerializer()
+            wire = json.loads(json.dumps(st.to_serialized(ser).model_dump(mode="json")))
+            st2 = BrokerState.from_serialized(SerializedContext.model_validate(wire), _WAITWF8[0], ser)
+            if sorted(st2.config.catch_error_handlers) != ["h1", "hw"] or st2.config.handler_for_step.get("s1") != "h1":
+                raise AssertionError("harness: the workflow's handler tables differ from the hand-built state's")
+            st = st2
+        if how == 0:
+            st, _ = _reduce_tick(mk_add_event(EVB), st, 2)
+        else:
+            st, _ = _reduce_tick(TickWaiterTimeout(step_name="s1", waiter_id="w"), st, 2)
+        ips = st.workers["s1"].in_progress
+        if len(ips) != 1 or dict(ips[0].recovery_counts) != rc:
+            return False
+        st, cmds = _reduce_tick(mk_step_result("s1", ips[0].worker_id, EVA, [StepWorkerFailed(exception=EXC, failed_at=3.0)]), st, 3, "r")
+        routed = [c for c in cmds if isinstance(c, CommandQueueEvent) and isinstance(c.event, StepFailedEvent)]
+        fails = [c for c in cmds if isinstance(c, CommandFailWorkflow)]
+        spent = rc.get("h1", 0) + 1 > 2
+        if spent:
+            return not routed and len(fails) == 1 and fails[0].exception is EXC
+        return len(routed) == 1 and not fails and routed[0].step_name == "h1" and routed[0].recovery_counts.get("h1") == rc.get("h1", 0) + 1
+
+    return with_native(scenario)
